@@ -455,7 +455,7 @@ func TestVerifC17(t *testing.T) {
 	r.Bounds["max_length"] = n
 	r.Bounds["alphabet"] = string(c17Alphabet)
 	r.Bounds["e2e_max_length"] = 3
-	r.Extra["rule"] = "all strings of length <= n over the 22-symbol alphabet, ValidateRefGlob and ValidatePathGlob each compared with the reference validator (accept/reject), ref=>path implication, column oracle; all strings <= 3 (also followed by / preceded by a ${{ }} placeholder, which is ordinary text there) additionally through Linter.Lint in 9 layouts (the same string under ref and path keys of one, two and three events, both orders; lists with empty / null / non-scalar and valid elements around the pattern; push, pull_request, pull_request_target, merge_group, workflow_run; events without filters - workflow_dispatch, schedule, workflow_call, repository_dispatch - before and between them); class = (validator, reference verdict, reference reason); non-trivial = invalid by the reference"
+	r.Extra["rule"] = "all strings of length <= n over the 22-symbol alphabet, ValidateRefGlob and ValidatePathGlob each compared with the reference validator (accept/reject), ref=>path implication, column oracle; every sequence of <= 4 pieces out of 17 (whole character classes, wildcards, escapes, separators) likewise; all strings <= 3 (also followed by / preceded by a ${{ }} placeholder, which is ordinary text there) additionally through Linter.Lint in 9 layouts (the same string under ref and path keys of one, two and three events, both orders; lists with empty / null / non-scalar and valid elements around the pattern; push, pull_request, pull_request_target, merge_group, workflow_run; events without filters - workflow_dispatch, schedule, workflow_call, repository_dispatch - before and between them); class = (validator, reference verdict, reference reason); non-trivial = invalid by the reference"
 	r.Extra["assumptions"] = []string{"characters outside the alphabet are represented by a, b (ordinary), space/~ (ref-forbidden), \\x01 and TAB (control characters below and next to the line breaks), é (non-ASCII), U+FEFF (a character the scanner library treats specially at the head of its input), U+009C (a C1 control character: ordinary in a ref name, only ASCII controls are forbidden), NUL (reachable through \"\\0\"; acceptance is a don't-care, the column of what is reported is not)", "appendix B don't-care classes are not compared"}
 
 	if raw := vReplayInput(); raw != nil {
@@ -476,6 +476,28 @@ func TestVerifC17(t *testing.T) {
 
 	k := len(c17Alphabet)
 	var idx int64
+	// longer patterns than the character enumeration reaches: every sequence of <= 4 PIECES (whole
+	// character classes - good, useless, reversed, unclosed -, wildcards, escapes, separators), so
+	// that what one construct leaves behind meets the next one
+	pieces := []string{"[ab]", "[x]", "[0-9]", "[z-a]", "[a-]", "[", "]", "a", "*", "**", "?", "+", "/", "!", "\\[", " ", "\\"}
+	r.Bounds["pieces"] = len(pieces)
+	var rec func(cur string, depth int)
+	rec = func(cur string, depth int) {
+		if depth > 0 {
+			idx++
+			if r.Mine(idx) {
+				r.Begin(func() string { return fmt.Sprintf("piece pattern %q", cur) })
+				c17Check(r, cur)
+			}
+		}
+		if depth == 4 {
+			return
+		}
+		for _, pc := range pieces {
+			rec(cur+pc, depth+1)
+		}
+	}
+	rec("", 0)
 	buf := make([]rune, 0, n)
 	for l := 0; l <= n; l++ {
 		total := int64(1)
